@@ -32,9 +32,9 @@ mutual
       | some _ =>
         let (fresh, ds) := ds.insert e.id.original
         if fresh then
-          let ds := ds.push e.id.original
           let ds := e.variants.foldl (fun (ds : DS) v => match v with
             | .tuple _ _ ty => depsType items fuel ty ds
+            | .anonymousStruct _ _ fs => fs.foldl (fun (ds : DS) f => depsType items fuel f.ty ds) ds
             | _ => ds) ds
           ds.remove e.id.original
         else ds
@@ -71,17 +71,7 @@ mutual
             if fresh then
               let ds := ds.push id
               let ds := depsItem items fuel thing ds
-              let ds := params.foldl (fun (ds : DS) (p : RustType) =>
-                let pid := p.id
-                match lookup items pid with
-                | some pthing =>
-                  let (fresh, ds) := ds.insert pid
-                  if fresh then
-                    let ds := ds.push pid
-                    let ds := depsItem items fuel pthing ds
-                    ds.remove pid
-                  else ds
-                | none => ds) ds
+              let ds := params.foldl (fun (ds : DS) (p : RustType) => depsType items fuel p ds) ds
               ds.remove id
             else ds
           | none => ds)
@@ -98,6 +88,8 @@ mutual
         | .hashMap k v => depsType items fuel v (depsType items fuel k ds)
         | .option t => depsType items fuel t ds
         | .vec t => depsType items fuel t ds
+        | .array t _ => depsType items fuel t ds
+        | .slice t => depsType items fuel t ds
         | _ => ds
       ds.remove tp.id
 end
